@@ -322,20 +322,240 @@ theorem vis_ifCond {c : IfCond} {rs : RS} (hq : (checkIfCond rg c rs).viols = []
     rw [vis_logic _ lc (add_nil hq).2]
     rfl
 
+/-! ### The checker's scope: blocks are balanced, a quiet `let` declares what the visit declares -/
+
+theorem codeAfter_scope (rc bc cc : Bool) (rs : RS) : (codeAfter rc bc cc rs).scope = rs.scope := by
+  unfold codeAfter
+  cases rc <;> cases bc <;> cases cc <;> rfl
+
+theorem declare_tail (sc : Scope) (n : Name) (t : Ty) (m : Bool) : (sc.declare n t m).tail = sc.tail := by
+  cases sc <;> rfl
+
+theorem let_tail (b : LetB) (rs : RS) : (checkLet rg b rs).scope.tail = rs.scope.tail := by
+  unfold checkLet
+  cases checkExpr rg rs.scope b.value with
+  | mk vs t =>
+    cases t with
+    | none => rfl
+    | some t =>
+      dsimp only
+      split
+      · rfl
+      · exact declare_tail _ _ _ _
+
+theorem bind_scope (b : Bind) (rs : RS) : (checkBind rg b rs).scope = rs.scope := by
+  unfold checkBind
+  split
+  · rfl
+  · dsimp only
+    split
+    · rfl
+    · split
+      · rfl
+      · split <;> rfl
+
+theorem callS_scope (c : CallS) (rs : RS) : (checkCallS rg c rs).scope = rs.scope := rfl
+
+theorem ifCond_scope (c : IfCond) (rs : RS) : (checkIfCond rg c rs).scope = rs.scope := by
+  unfold checkIfCond
+  cases c <;> rfl
+
+theorem nret_scope (e : Expr) (rs : RS) : (checkNestedRet rg R e rs).1.scope = rs.scope := by
+  unfold checkNestedRet
+  cases checkExpr rg rs.scope e with
+  | mk vs t =>
+    cases t with
+    | none => rfl
+    | some t =>
+      dsimp only
+      split <;> split <;> rfl
+
+theorem fnret_scope (e : Expr) (rc : Bool) (rs : RS) : (checkFnRet rg R e rc rs).1.scope = rs.scope := by
+  unfold checkFnRet
+  dsimp only
+  cases rc <;> (
+    cases (checkExpr rg rs.scope e).2 with
+    | none => rfl
+    | some t =>
+      dsimp only
+      unfold checkFnRetTail
+      dsimp only
+      split <;> split <;> rfl)
+
+theorem let_scope_quiet {b : LetB} {rs : RS} (hq : (checkLet rg b rs).viols = []) :
+    (checkLet rg b rs).scope = visLetSc rg rs.scope b := by
+  have hv := visLockE rg rs.scope b.value (let_quiet hq)
+  unfold checkLet at hq ⊢
+  unfold visLetSc
+  rw [hv]
+  cases hc : checkExpr rg rs.scope b.value with
+  | mk vs t =>
+    rw [hc] at hq
+    cases t with
+    | none => rfl
+    | some t =>
+      dsimp only at hq ⊢
+      split
+      · rfl
+      · rfl
+
+mutual
+theorem sc_if : ∀ (i : IfStmt) (rs : RS), (checkIf rg R i rs).scope = rs.scope
+  | .mk cond body els elif, rs => by
+    unfold checkIf
+    dsimp only
+    have h0 : (if (els.isSome && elif.isSome) = true then rs.viol "B10" .ifElseDuplicated "if-condition".toList else rs).scope = rs.scope := by
+      split <;> rfl
+    generalize (if (els.isSome && elif.isSome) = true then rs.viol "B10" .ifElseDuplicated "if-condition".toList else rs) = s0 at h0 ⊢
+    have h1 : (checkBodies rg R body (checkIfCond rg cond s0.push)).pop.scope = rs.scope := by
+      show (checkBodies rg R body (checkIfCond rg cond s0.push)).scope.tail = rs.scope
+      rw [tl_bodies body _, ifCond_scope]
+      exact h0
+    generalize (checkBodies rg R body (checkIfCond rg cond s0.push)).pop = s1 at h1 ⊢
+    cases els with
+    | some eb =>
+      dsimp only
+      show (checkBodies rg R eb s1.push).scope.tail = rs.scope
+      rw [tl_bodies eb _]
+      exact h1
+    | none =>
+      cases elif with
+      | some ei =>
+        dsimp only
+        rw [sc_if ei s1, h1]
+      | none => exact h1
+theorem tl_bodies : ∀ (b : IfBodies) (rs : RS), (checkBodies rg R b rs).scope.tail = rs.scope.tail
+  | .ifb l, rs => by unfold checkBodies; exact tl_ifBody l false rs
+  | .loopb l, rs => by unfold checkBodies; exact tl_ifLoopBody l false false false rs
+theorem tl_ifBody : ∀ (l : List IfBodyStmt) (rc : Bool) (rs : RS), (checkIfBody rg R l rc rs).scope.tail = rs.scope.tail
+  | [], _, rs => by unfold checkIfBody; rfl
+  | st :: tl, rc, rs => by
+    unfold checkIfBody
+    dsimp only
+    cases st with
+    | letB b =>
+      dsimp only
+      rw [tl_ifBody tl rc _, let_tail, codeAfter_scope]
+    | bind b =>
+      dsimp only
+      rw [tl_ifBody tl rc _, bind_scope, codeAfter_scope]
+    | call c =>
+      dsimp only
+      rw [tl_ifBody tl rc _, callS_scope, codeAfter_scope]
+    | ifS i =>
+      dsimp only
+      rw [tl_ifBody tl rc _, sc_if i _, codeAfter_scope]
+    | loop b =>
+      dsimp only
+      rw [tl_ifBody tl rc _]
+      show (checkLoopBody rg R b false false false (codeAfter rc false false rs).push).scope.tail.tail = rs.scope.tail
+      rw [tl_loopBody b false false false _]
+      show (codeAfter rc false false rs).scope.tail = rs.scope.tail
+      rw [codeAfter_scope]
+    | ret e =>
+      dsimp only
+      have h1 := nret_scope (rg := rg) (R := R) e (codeAfter rc false false rs)
+      generalize checkNestedRet rg R e (codeAfter rc false false rs) = q at h1 ⊢
+      obtain ⟨s1, r⟩ := q
+      dsimp only at h1 ⊢
+      rw [tl_ifBody tl (rc || r) s1, h1, codeAfter_scope]
+theorem tl_ifLoopBody : ∀ (l : List IfLoopStmt) (rc bc cc : Bool) (rs : RS), (checkIfLoopBody rg R l rc bc cc rs).scope.tail = rs.scope.tail
+  | [], _, _, _, rs => by unfold checkIfLoopBody; rfl
+  | st :: tl, rc, bc, cc, rs => by
+    unfold checkIfLoopBody
+    dsimp only
+    cases st with
+    | letB b =>
+      dsimp only
+      rw [tl_ifLoopBody tl rc bc cc _, let_tail, codeAfter_scope]
+    | bind b =>
+      dsimp only
+      rw [tl_ifLoopBody tl rc bc cc _, bind_scope, codeAfter_scope]
+    | call c =>
+      dsimp only
+      rw [tl_ifLoopBody tl rc bc cc _, callS_scope, codeAfter_scope]
+    | ifS i =>
+      dsimp only
+      rw [tl_ifLoopBody tl rc bc cc _, sc_if i _, codeAfter_scope]
+    | loop b =>
+      dsimp only
+      rw [tl_ifLoopBody tl rc bc cc _]
+      show (checkLoopBody rg R b false false false (codeAfter rc bc cc rs).push).scope.tail.tail = rs.scope.tail
+      rw [tl_loopBody b false false false _]
+      show (codeAfter rc bc cc rs).scope.tail = rs.scope.tail
+      rw [codeAfter_scope]
+    | ret e =>
+      dsimp only
+      have h1 := nret_scope (rg := rg) (R := R) e (codeAfter rc bc cc rs)
+      generalize checkNestedRet rg R e (codeAfter rc bc cc rs) = q at h1 ⊢
+      obtain ⟨s1, r⟩ := q
+      dsimp only at h1 ⊢
+      rw [tl_ifLoopBody tl (rc || r) bc cc s1, h1, codeAfter_scope]
+    | brk =>
+      dsimp only
+      rw [tl_ifLoopBody tl rc true cc _, codeAfter_scope]
+    | cont =>
+      dsimp only
+      rw [tl_ifLoopBody tl rc bc true _, codeAfter_scope]
+theorem tl_loopBody : ∀ (l : List LoopStmt) (rc bc cc : Bool) (rs : RS), (checkLoopBody rg R l rc bc cc rs).scope.tail = rs.scope.tail
+  | [], _, _, _, rs => by unfold checkLoopBody; rfl
+  | st :: tl, rc, bc, cc, rs => by
+    unfold checkLoopBody
+    dsimp only
+    cases st with
+    | letB b =>
+      dsimp only
+      rw [tl_loopBody tl rc bc cc _, let_tail, codeAfter_scope]
+    | bind b =>
+      dsimp only
+      rw [tl_loopBody tl rc bc cc _, bind_scope, codeAfter_scope]
+    | call c =>
+      dsimp only
+      rw [tl_loopBody tl rc bc cc _, callS_scope, codeAfter_scope]
+    | ifS i =>
+      dsimp only
+      rw [tl_loopBody tl rc bc cc _, sc_if i _, codeAfter_scope]
+    | loop b =>
+      dsimp only
+      rw [tl_loopBody tl rc bc cc _]
+      show (checkLoopBody rg R b false false false (codeAfter rc bc cc rs).push).scope.tail.tail = rs.scope.tail
+      rw [tl_loopBody b false false false _]
+      show (codeAfter rc bc cc rs).scope.tail = rs.scope.tail
+      rw [codeAfter_scope]
+    | ret e =>
+      dsimp only
+      have h1 := nret_scope (rg := rg) (R := R) e (codeAfter rc bc cc rs)
+      generalize checkNestedRet rg R e (codeAfter rc bc cc rs) = q at h1 ⊢
+      obtain ⟨s1, r⟩ := q
+      dsimp only at h1 ⊢
+      rw [tl_loopBody tl (rc || r) bc cc s1, h1, codeAfter_scope]
+    | brk =>
+      dsimp only
+      rw [tl_loopBody tl rc true cc _, codeAfter_scope]
+    | cont =>
+      dsimp only
+      rw [tl_loopBody tl rc bc true _, codeAfter_scope]
+end
+
+theorem loop_scope (b : List LoopStmt) (rs : RS) : (checkLoopBody rg R b false false false rs.push).pop.scope = rs.scope := by
+  show (checkLoopBody rg R b false false false rs.push).scope.tail = rs.scope
+  rw [tl_loopBody]
+  rfl
+
 /-! ### Control constructs -/
 
 mutual
-theorem vl_if : ∀ (i : IfStmt) (rs : RS), (checkIf rg R i rs).viols = [] → visIf rg R i rs = leavesOf i.exprs
-  | .mk cond body els elif, rs, hq => by
+theorem vl_if : ∀ (i : IfStmt) (rs : RS) (sc : Scope), rs.scope = sc →
+    (checkIf rg R i rs).viols = [] → visIf rg i sc = leavesOf i.exprs
+  | .mk cond body els elif, rs, sc, hsc, hq => by
     unfold checkIf at hq
     unfold visIf IfStmt.exprs
     dsimp only at hq ⊢
-    have hs0 : (if (els.isSome && elif.isSome) = true then rs.viol "B10" .ifElseDuplicated "if-condition".toList else rs).viols = [] →
-        (if (els.isSome && elif.isSome) = true then rs.viol "B10" .ifElseDuplicated "if-condition".toList else rs) = rs := by
+    have h0 : (if (els.isSome && elif.isSome) = true then rs.viol "B10" .ifElseDuplicated "if-condition".toList else rs).scope = sc := by
       split
-      · intro hv; simp [RS.viol, RS.add] at hv
-      · intro _; rfl
-    generalize (if (els.isSome && elif.isSome) = true then rs.viol "B10" .ifElseDuplicated "if-condition".toList else rs) = s0 at hq hs0 ⊢
+      · exact hsc
+      · exact hsc
+    generalize (if (els.isSome && elif.isSome) = true then rs.viol "B10" .ifElseDuplicated "if-condition".toList else rs) = s0 at hq h0 ⊢
     have x1 := rext_checkIfCond rg cond s0.push
     have x2 := rext_checkBodies rg R body (checkIfCond rg cond s0.push)
     have q3 : (checkBodies rg R body (checkIfCond rg cond s0.push)).pop.viols = [] := by
@@ -347,218 +567,240 @@ theorem vl_if : ∀ (i : IfStmt) (rs : RS), (checkIf rg R i rs).viols = [] → v
         | none => exact hq
     have q2 : (checkBodies rg R body (checkIfCond rg cond s0.push)).viols = [] := q3
     have q1 : (checkIfCond rg cond s0.push).viols = [] := nil_of_rext x2 q2
+    have hp : s0.push.scope = [] :: sc := by show [] :: _ = [] :: sc; rw [h0]
     have hc := vis_ifCond (rg := rg) q1
-    rw [hc, vl_bodies body _ q2]
+    rw [hp] at hc
+    have hs1 : (checkBodies rg R body (checkIfCond rg cond s0.push)).pop.scope = sc := by
+      show (checkBodies rg R body (checkIfCond rg cond s0.push)).scope.tail = sc
+      rw [tl_bodies body _, ifCond_scope, hp]
+      rfl
+    rw [hc, vl_bodies body _ ([] :: sc) ((ifCond_scope cond _).trans hp) q2]
     cases els with
     | some eb =>
       dsimp only at hq ⊢
-      rw [vl_bodies eb _ hq]
+      rw [vl_bodies eb _ ([] :: sc) (by show [] :: _ = [] :: sc; rw [hs1]) hq]
       simp
     | none =>
       cases elif with
       | some ei =>
         dsimp only at hq ⊢
-        rw [vl_if ei _ hq]
+        rw [vl_if ei _ sc hs1 hq]
         simp
       | none => simp
-theorem vl_bodies : ∀ (b : IfBodies) (rs : RS), (checkBodies rg R b rs).viols = [] → visBodies rg R b rs = leavesOf b.exprs
-  | .ifb l, rs, hq => by
+theorem vl_bodies : ∀ (b : IfBodies) (rs : RS) (sc : Scope), rs.scope = sc →
+    (checkBodies rg R b rs).viols = [] → visBodies rg b sc = leavesOf b.exprs
+  | .ifb l, rs, sc, hsc, hq => by
     unfold checkBodies at hq
     unfold visBodies IfBodies.exprs
-    exact vl_ifBody l false rs hq
-  | .loopb l, rs, hq => by
+    exact vl_ifBody l false rs sc hsc hq
+  | .loopb l, rs, sc, hsc, hq => by
     unfold checkBodies at hq
     unfold visBodies IfBodies.exprs
-    exact vl_ifLoopBody l false false false rs hq
-theorem vl_ifBody : ∀ (l : List IfBodyStmt) (rc : Bool) (rs : RS),
-    (checkIfBody rg R l rc rs).viols = [] → visIfBody rg R l rc rs = leavesOf (IfBodyStmt.exprsL l)
-  | [], _, rs, _ => by unfold visIfBody IfBodyStmt.exprsL; rfl
-  | st :: tl, rc, rs, hq => by
+    exact vl_ifLoopBody l false false false rs sc hsc hq
+theorem vl_ifBody : ∀ (l : List IfBodyStmt) (rc : Bool) (rs : RS) (sc : Scope), rs.scope = sc →
+    (checkIfBody rg R l rc rs).viols = [] → visIfBody rg l sc = leavesOf (IfBodyStmt.exprsL l)
+  | [], _, rs, sc, _, _ => by unfold visIfBody IfBodyStmt.exprsL; rfl
+  | st :: tl, rc, rs, sc, hsc, hq => by
     unfold checkIfBody at hq
-    unfold visIfBody
-    dsimp only at hq ⊢
+    dsimp only at hq
+    have hca : (codeAfter rc false false rs).scope = sc := by rw [codeAfter_scope]; exact hsc
     cases st with
     | letB b =>
-      unfold IfBodyStmt.exprsL
+      unfold visIfBody IfBodyStmt.exprsL
       dsimp only at hq ⊢
       have q1 := nil_of_rext (rext_checkIfBody rg R tl rc _) hq
-      rw [visE_quiet (let_quiet q1), vl_ifBody tl rc _ hq, leavesOf_cons]
+      rw [← hca, visE_quiet (let_quiet q1), vl_ifBody tl rc _ _ (let_scope_quiet q1) hq, leavesOf_cons]
     | bind b =>
-      unfold IfBodyStmt.exprsL
+      unfold visIfBody IfBodyStmt.exprsL
       dsimp only at hq ⊢
       have q1 := nil_of_rext (rext_checkIfBody rg R tl rc _) hq
-      rw [visE_quiet (bind_quiet q1), vl_ifBody tl rc _ hq, leavesOf_cons]
+      rw [← hca, visE_quiet (bind_quiet q1), vl_ifBody tl rc _ _ (bind_scope b _) hq, leavesOf_cons]
     | call c =>
-      unfold IfBodyStmt.exprsL
+      unfold visIfBody IfBodyStmt.exprsL
       dsimp only at hq ⊢
       have q1 := nil_of_rext (rext_checkIfBody rg R tl rc _) hq
-      rw [vis_callS q1, vl_ifBody tl rc _ hq, leavesOf_append]
+      rw [← hca, vis_callS q1, vl_ifBody tl rc _ _ (callS_scope c _) hq, leavesOf_append]
     | ifS i =>
-      unfold IfBodyStmt.exprsL
+      unfold visIfBody IfBodyStmt.exprsL
       dsimp only at hq ⊢
       have q1 := nil_of_rext (rext_checkIfBody rg R tl rc _) hq
-      rw [vl_if i _ q1, vl_ifBody tl rc _ hq, leavesOf_append]
+      rw [vl_if i _ sc hca q1, vl_ifBody tl rc _ sc ((sc_if i _).trans hca) hq, leavesOf_append]
     | loop b =>
-      unfold IfBodyStmt.exprsL
+      unfold visIfBody IfBodyStmt.exprsL
       dsimp only at hq ⊢
       have q1 := nil_of_rext (rext_checkIfBody rg R tl rc _) hq
-      rw [vl_loopBody b false false false _ q1, vl_ifBody tl rc _ hq, leavesOf_append]
+      rw [vl_loopBody b false false false _ ([] :: sc) (by show [] :: _ = [] :: sc; rw [hca]) q1,
+        vl_ifBody tl rc _ sc ((loop_scope b _).trans hca) hq, leavesOf_append]
     | ret e =>
-      unfold IfBodyStmt.exprsL
+      unfold visIfBody IfBodyStmt.exprsL
       dsimp only at hq ⊢
       have h1 := fun hv => nret_quiet (rg := rg) (R := R) (e := e) (rs := codeAfter rc false false rs) hv
-      generalize checkNestedRet rg R e (codeAfter rc false false rs) = q at hq h1 ⊢
+      have h2 := nret_scope (rg := rg) (R := R) e (codeAfter rc false false rs)
+      generalize checkNestedRet rg R e (codeAfter rc false false rs) = q at hq h1 h2 ⊢
       obtain ⟨s1, r⟩ := q
-      dsimp only at hq h1 ⊢
-      rw [visE_quiet (h1 (nil_of_rext (rext_checkIfBody rg R tl (rc || r) s1) hq)), vl_ifBody tl (rc || r) s1 hq, leavesOf_cons]
-theorem vl_ifLoopBody : ∀ (l : List IfLoopStmt) (rc bc cc : Bool) (rs : RS),
-    (checkIfLoopBody rg R l rc bc cc rs).viols = [] → visIfLoopBody rg R l rc bc cc rs = leavesOf (IfLoopStmt.exprsL l)
-  | [], _, _, _, rs, _ => by unfold visIfLoopBody IfLoopStmt.exprsL; rfl
-  | st :: tl, rc, bc, cc, rs, hq => by
+      dsimp only at hq h1 h2 ⊢
+      rw [← hca, visE_quiet (h1 (nil_of_rext (rext_checkIfBody rg R tl (rc || r) s1) hq)),
+        vl_ifBody tl (rc || r) s1 _ h2 hq, leavesOf_cons]
+theorem vl_ifLoopBody : ∀ (l : List IfLoopStmt) (rc bc cc : Bool) (rs : RS) (sc : Scope), rs.scope = sc →
+    (checkIfLoopBody rg R l rc bc cc rs).viols = [] → visIfLoopBody rg l sc = leavesOf (IfLoopStmt.exprsL l)
+  | [], _, _, _, rs, sc, _, _ => by unfold visIfLoopBody IfLoopStmt.exprsL; rfl
+  | st :: tl, rc, bc, cc, rs, sc, hsc, hq => by
     unfold checkIfLoopBody at hq
-    unfold visIfLoopBody
-    dsimp only at hq ⊢
+    dsimp only at hq
+    have hca : (codeAfter rc bc cc rs).scope = sc := by rw [codeAfter_scope]; exact hsc
     cases st with
     | letB b =>
-      unfold IfLoopStmt.exprsL
+      unfold visIfLoopBody IfLoopStmt.exprsL
       dsimp only at hq ⊢
       have q1 := nil_of_rext (rext_checkIfLoopBody rg R tl rc bc cc _) hq
-      rw [visE_quiet (let_quiet q1), vl_ifLoopBody tl rc bc cc _ hq, leavesOf_cons]
+      rw [← hca, visE_quiet (let_quiet q1), vl_ifLoopBody tl rc bc cc _ _ (let_scope_quiet q1) hq, leavesOf_cons]
     | bind b =>
-      unfold IfLoopStmt.exprsL
+      unfold visIfLoopBody IfLoopStmt.exprsL
       dsimp only at hq ⊢
       have q1 := nil_of_rext (rext_checkIfLoopBody rg R tl rc bc cc _) hq
-      rw [visE_quiet (bind_quiet q1), vl_ifLoopBody tl rc bc cc _ hq, leavesOf_cons]
+      rw [← hca, visE_quiet (bind_quiet q1), vl_ifLoopBody tl rc bc cc _ _ (bind_scope b _) hq, leavesOf_cons]
     | call c =>
-      unfold IfLoopStmt.exprsL
+      unfold visIfLoopBody IfLoopStmt.exprsL
       dsimp only at hq ⊢
       have q1 := nil_of_rext (rext_checkIfLoopBody rg R tl rc bc cc _) hq
-      rw [vis_callS q1, vl_ifLoopBody tl rc bc cc _ hq, leavesOf_append]
+      rw [← hca, vis_callS q1, vl_ifLoopBody tl rc bc cc _ _ (callS_scope c _) hq, leavesOf_append]
     | ifS i =>
-      unfold IfLoopStmt.exprsL
+      unfold visIfLoopBody IfLoopStmt.exprsL
       dsimp only at hq ⊢
       have q1 := nil_of_rext (rext_checkIfLoopBody rg R tl rc bc cc _) hq
-      rw [vl_if i _ q1, vl_ifLoopBody tl rc bc cc _ hq, leavesOf_append]
+      rw [vl_if i _ sc hca q1, vl_ifLoopBody tl rc bc cc _ sc ((sc_if i _).trans hca) hq, leavesOf_append]
     | loop b =>
-      unfold IfLoopStmt.exprsL
+      unfold visIfLoopBody IfLoopStmt.exprsL
       dsimp only at hq ⊢
       have q1 := nil_of_rext (rext_checkIfLoopBody rg R tl rc bc cc _) hq
-      rw [vl_loopBody b false false false _ q1, vl_ifLoopBody tl rc bc cc _ hq, leavesOf_append]
+      rw [vl_loopBody b false false false _ ([] :: sc) (by show [] :: _ = [] :: sc; rw [hca]) q1,
+        vl_ifLoopBody tl rc bc cc _ sc ((loop_scope b _).trans hca) hq, leavesOf_append]
     | ret e =>
-      unfold IfLoopStmt.exprsL
+      unfold visIfLoopBody IfLoopStmt.exprsL
       dsimp only at hq ⊢
       have h1 := fun hv => nret_quiet (rg := rg) (R := R) (e := e) (rs := codeAfter rc bc cc rs) hv
-      generalize checkNestedRet rg R e (codeAfter rc bc cc rs) = q at hq h1 ⊢
+      have h2 := nret_scope (rg := rg) (R := R) e (codeAfter rc bc cc rs)
+      generalize checkNestedRet rg R e (codeAfter rc bc cc rs) = q at hq h1 h2 ⊢
       obtain ⟨s1, r⟩ := q
-      dsimp only at hq h1 ⊢
-      rw [visE_quiet (h1 (nil_of_rext (rext_checkIfLoopBody rg R tl (rc || r) bc cc s1) hq)), vl_ifLoopBody tl (rc || r) bc cc s1 hq, leavesOf_cons]
+      dsimp only at hq h1 h2 ⊢
+      rw [← hca, visE_quiet (h1 (nil_of_rext (rext_checkIfLoopBody rg R tl (rc || r) bc cc s1) hq)),
+        vl_ifLoopBody tl (rc || r) bc cc s1 _ h2 hq, leavesOf_cons]
     | brk =>
-      unfold IfLoopStmt.exprsL
-      exact vl_ifLoopBody tl rc true cc _ hq
+      unfold visIfLoopBody IfLoopStmt.exprsL
+      exact vl_ifLoopBody tl rc true cc _ sc hca hq
     | cont =>
-      unfold IfLoopStmt.exprsL
-      exact vl_ifLoopBody tl rc bc true _ hq
-theorem vl_loopBody : ∀ (l : List LoopStmt) (rc bc cc : Bool) (rs : RS),
-    (checkLoopBody rg R l rc bc cc rs).viols = [] → visLoopBody rg R l rc bc cc rs = leavesOf (LoopStmt.exprsL l)
-  | [], _, _, _, rs, _ => by unfold visLoopBody LoopStmt.exprsL; rfl
-  | st :: tl, rc, bc, cc, rs, hq => by
+      unfold visIfLoopBody IfLoopStmt.exprsL
+      exact vl_ifLoopBody tl rc bc true _ sc hca hq
+theorem vl_loopBody : ∀ (l : List LoopStmt) (rc bc cc : Bool) (rs : RS) (sc : Scope), rs.scope = sc →
+    (checkLoopBody rg R l rc bc cc rs).viols = [] → visLoopBody rg l sc = leavesOf (LoopStmt.exprsL l)
+  | [], _, _, _, rs, sc, _, _ => by unfold visLoopBody LoopStmt.exprsL; rfl
+  | st :: tl, rc, bc, cc, rs, sc, hsc, hq => by
     unfold checkLoopBody at hq
-    unfold visLoopBody
-    dsimp only at hq ⊢
+    dsimp only at hq
+    have hca : (codeAfter rc bc cc rs).scope = sc := by rw [codeAfter_scope]; exact hsc
     cases st with
     | letB b =>
-      unfold LoopStmt.exprsL
+      unfold visLoopBody LoopStmt.exprsL
       dsimp only at hq ⊢
       have q1 := nil_of_rext (rext_checkLoopBody rg R tl rc bc cc _) hq
-      rw [visE_quiet (let_quiet q1), vl_loopBody tl rc bc cc _ hq, leavesOf_cons]
+      rw [← hca, visE_quiet (let_quiet q1), vl_loopBody tl rc bc cc _ _ (let_scope_quiet q1) hq, leavesOf_cons]
     | bind b =>
-      unfold LoopStmt.exprsL
+      unfold visLoopBody LoopStmt.exprsL
       dsimp only at hq ⊢
       have q1 := nil_of_rext (rext_checkLoopBody rg R tl rc bc cc _) hq
-      rw [visE_quiet (bind_quiet q1), vl_loopBody tl rc bc cc _ hq, leavesOf_cons]
+      rw [← hca, visE_quiet (bind_quiet q1), vl_loopBody tl rc bc cc _ _ (bind_scope b _) hq, leavesOf_cons]
     | call c =>
-      unfold LoopStmt.exprsL
+      unfold visLoopBody LoopStmt.exprsL
       dsimp only at hq ⊢
       have q1 := nil_of_rext (rext_checkLoopBody rg R tl rc bc cc _) hq
-      rw [vis_callS q1, vl_loopBody tl rc bc cc _ hq, leavesOf_append]
+      rw [← hca, vis_callS q1, vl_loopBody tl rc bc cc _ _ (callS_scope c _) hq, leavesOf_append]
     | ifS i =>
-      unfold LoopStmt.exprsL
+      unfold visLoopBody LoopStmt.exprsL
       dsimp only at hq ⊢
       have q1 := nil_of_rext (rext_checkLoopBody rg R tl rc bc cc _) hq
-      rw [vl_if i _ q1, vl_loopBody tl rc bc cc _ hq, leavesOf_append]
+      rw [vl_if i _ sc hca q1, vl_loopBody tl rc bc cc _ sc ((sc_if i _).trans hca) hq, leavesOf_append]
     | loop b =>
-      unfold LoopStmt.exprsL
+      unfold visLoopBody LoopStmt.exprsL
       dsimp only at hq ⊢
       have q1 := nil_of_rext (rext_checkLoopBody rg R tl rc bc cc _) hq
-      rw [vl_loopBody b false false false _ q1, vl_loopBody tl rc bc cc _ hq, leavesOf_append]
+      rw [vl_loopBody b false false false _ ([] :: sc) (by show [] :: _ = [] :: sc; rw [hca]) q1,
+        vl_loopBody tl rc bc cc _ sc ((loop_scope b _).trans hca) hq, leavesOf_append]
     | ret e =>
-      unfold LoopStmt.exprsL
+      unfold visLoopBody LoopStmt.exprsL
       dsimp only at hq ⊢
       have h1 := fun hv => nret_quiet (rg := rg) (R := R) (e := e) (rs := codeAfter rc bc cc rs) hv
-      generalize checkNestedRet rg R e (codeAfter rc bc cc rs) = q at hq h1 ⊢
+      have h2 := nret_scope (rg := rg) (R := R) e (codeAfter rc bc cc rs)
+      generalize checkNestedRet rg R e (codeAfter rc bc cc rs) = q at hq h1 h2 ⊢
       obtain ⟨s1, r⟩ := q
-      dsimp only at hq h1 ⊢
-      rw [visE_quiet (h1 (nil_of_rext (rext_checkLoopBody rg R tl (rc || r) bc cc s1) hq)), vl_loopBody tl (rc || r) bc cc s1 hq, leavesOf_cons]
+      dsimp only at hq h1 h2 ⊢
+      rw [← hca, visE_quiet (h1 (nil_of_rext (rext_checkLoopBody rg R tl (rc || r) bc cc s1) hq)),
+        vl_loopBody tl (rc || r) bc cc s1 _ h2 hq, leavesOf_cons]
     | brk =>
-      unfold LoopStmt.exprsL
-      exact vl_loopBody tl rc true cc _ hq
+      unfold visLoopBody LoopStmt.exprsL
+      exact vl_loopBody tl rc true cc _ sc hca hq
     | cont =>
-      unfold LoopStmt.exprsL
-      exact vl_loopBody tl rc bc true _ hq
+      unfold visLoopBody LoopStmt.exprsL
+      exact vl_loopBody tl rc bc true _ sc hca hq
 end
 
 /-! ### Function level -/
 
-theorem vl_body : ∀ (l : List BodyStmt) (rc : Bool) (rs : RS),
-    (checkBody rg R l rc rs).1.viols = [] → visBody rg R l rc rs = leavesOf (BodyStmt.exprsL l)
-  | [], _, rs, _ => by unfold visBody BodyStmt.exprsL; rfl
-  | st :: tl, rc, rs, hq => by
+theorem vl_body : ∀ (l : List BodyStmt) (rc : Bool) (rs : RS) (sc : Scope), rs.scope = sc →
+    (checkBody rg R l rc rs).1.viols = [] → visBody rg l sc = leavesOf (BodyStmt.exprsL l)
+  | [], _, rs, sc, _, _ => by unfold visBody BodyStmt.exprsL; rfl
+  | st :: tl, rc, rs, sc, hsc, hq => by
     unfold checkBody at hq
-    unfold visBody
-    dsimp only at hq ⊢
-    generalize (if rc = true then rs.viol "B12-after" .forbiddenCodeAfterReturnDeprecated wildcard else rs) = s0 at hq ⊢
+    dsimp only at hq
+    have hca : (if rc = true then rs.viol "B12-after" .forbiddenCodeAfterReturnDeprecated wildcard else rs).scope = sc := by
+      split
+      · exact hsc
+      · exact hsc
+    generalize (if rc = true then rs.viol "B12-after" .forbiddenCodeAfterReturnDeprecated wildcard else rs) = s0 at hq hca
     cases st with
     | letB b =>
-      unfold BodyStmt.exprsL
+      unfold visBody BodyStmt.exprsL
       dsimp only at hq ⊢
       have q1 := nil_of_rext (rext_checkBody R tl rc _) hq
-      rw [visE_quiet (let_quiet q1), vl_body tl rc _ hq, leavesOf_cons]
+      rw [← hca, visE_quiet (let_quiet q1), vl_body tl rc _ _ (let_scope_quiet q1) hq, leavesOf_cons]
     | bind b =>
-      unfold BodyStmt.exprsL
+      unfold visBody BodyStmt.exprsL
       dsimp only at hq ⊢
       have q1 := nil_of_rext (rext_checkBody R tl rc _) hq
-      rw [visE_quiet (bind_quiet q1), vl_body tl rc _ hq, leavesOf_cons]
+      rw [← hca, visE_quiet (bind_quiet q1), vl_body tl rc _ _ (bind_scope b _) hq, leavesOf_cons]
     | call c =>
-      unfold BodyStmt.exprsL
+      unfold visBody BodyStmt.exprsL
       dsimp only at hq ⊢
       have q1 := nil_of_rext (rext_checkBody R tl rc _) hq
-      rw [vis_callS q1, vl_body tl rc _ hq, leavesOf_append]
+      rw [← hca, vis_callS q1, vl_body tl rc _ _ (callS_scope c _) hq, leavesOf_append]
     | ifS i =>
-      unfold BodyStmt.exprsL
+      unfold visBody BodyStmt.exprsL
       dsimp only at hq ⊢
       have q1 := nil_of_rext (rext_checkBody R tl rc _) hq
-      rw [vl_if i _ q1, vl_body tl rc _ hq, leavesOf_append]
+      rw [vl_if i _ sc hca q1, vl_body tl rc _ sc ((sc_if i _).trans hca) hq, leavesOf_append]
     | loop b =>
-      unfold BodyStmt.exprsL
+      unfold visBody BodyStmt.exprsL
       dsimp only at hq ⊢
       have q1 := nil_of_rext (rext_checkBody R tl rc _) hq
-      rw [vl_loopBody b false false false _ q1, vl_body tl rc _ hq, leavesOf_append]
+      rw [vl_loopBody b false false false _ ([] :: sc) (by show [] :: _ = [] :: sc; rw [hca]) q1,
+        vl_body tl rc _ sc ((loop_scope b _).trans hca) hq, leavesOf_append]
     | expr e =>
-      unfold BodyStmt.exprsL
+      unfold visBody BodyStmt.exprsL
       dsimp only at hq ⊢
       have h1 := fun hv => fnret_quiet (rg := rg) (R := R) (e := e) (rc := rc) (rs := s0) hv
-      generalize checkFnRet rg R e rc s0 = q at hq h1 ⊢
+      have h2 := fnret_scope (rg := rg) (R := R) e rc s0
+      generalize checkFnRet rg R e rc s0 = q at hq h1 h2 ⊢
       obtain ⟨s1, r⟩ := q
-      dsimp only at hq h1 ⊢
-      rw [visE_quiet (h1 (nil_of_rext (rext_checkBody R tl r s1) hq)), vl_body tl r s1 hq, leavesOf_cons]
+      dsimp only at hq h1 h2 ⊢
+      rw [← hca, visE_quiet (h1 (nil_of_rext (rext_checkBody R tl r s1) hq)), vl_body tl r s1 _ h2 hq, leavesOf_cons]
     | ret e =>
-      unfold BodyStmt.exprsL
+      unfold visBody BodyStmt.exprsL
       dsimp only at hq ⊢
       have h1 := fun hv => fnret_quiet (rg := rg) (R := R) (e := e) (rc := rc) (rs := s0) hv
-      generalize checkFnRet rg R e rc s0 = q at hq h1 ⊢
+      have h2 := fnret_scope (rg := rg) (R := R) e rc s0
+      generalize checkFnRet rg R e rc s0 = q at hq h1 h2 ⊢
       obtain ⟨s1, r⟩ := q
-      dsimp only at hq h1 ⊢
-      rw [visE_quiet (h1 (nil_of_rext (rext_checkBody R tl r s1) hq)), vl_body tl r s1 hq, leavesOf_cons]
+      dsimp only at hq h1 h2 ⊢
+      rw [← hca, visE_quiet (h1 (nil_of_rext (rext_checkBody R tl r s1) hq)), vl_body tl r s1 _ h2 hq, leavesOf_cons]
 
 /-- in a function on which the rule checker reports nothing, the leaves the analysis evaluates are
 all the extension leaves of the function, each once, in evaluation order -/
@@ -567,7 +809,7 @@ theorem vl_fn (rg : RGlobals) (f : FnDecl) (hq : checkFn rg f = []) : visFn rg f
   dsimp only at hq
   unfold visFn
   have h2 := fun hv => vl_body (rg := rg) (R := f.result.toTy) f.body false
-    (checkParams f.params { scope := [[]], viols := [] }) hv
+    (checkParams f.params { scope := [[]], viols := [] }) _ rfl hv
   generalize checkBody rg f.result.toTy f.body false (checkParams f.params { scope := [[]], viols := [] }) = q at hq h2
   obtain ⟨s2, rc⟩ := q
   dsimp only at hq h2
